@@ -244,11 +244,86 @@ let c01 ic =
     | _ -> (match rop_of_line line with Some op -> ops := op :: !ops | None -> failwith ("c01: bad line " ^ line))
   done with End_of_file -> ())
 
+
+(* ---------------- C02 / C03: output writer ---------------- *)
+let digest (l : coq_N list) : string =
+  let a = Array.of_list (L.map int_of_n l) in
+  let n = Array.length a in
+  let hexr i j = let b = Buffer.create 64 in for k = i to j - 1 do Buffer.add_string b (Printf.sprintf "%02x" a.(k)) done; Buffer.contents b in
+  if n <= 600 then Printf.sprintf "%d %s" n (if n = 0 then "-" else hexr 0 n)
+  else begin
+    let sum = ref 0 and xr = ref 0 in
+    Array.iter (fun x -> sum := (!sum * 31 + x) land 0xffffffff; xr := ((((!xr lsl 1) lor (!xr lsr 7)) land 0xff) lxor x)) a;
+    Printf.sprintf "%d #%08x.%02x.%s.%s" n !sum !xr (hexr 0 24) (hexr (n - 24) n)
+  end
+
+let z_of_string (s : string) : coq_Z = z_of_int (int_of_string s)
+
+let rec show_tree (t : Tree.tree) : string =
+  match t with
+  | Tree.TNull -> "null" | Tree.TBool b -> if b then "true" else "false"
+  | Tree.TInt z -> "i" ^ hex_of_z z | Tree.TF64 b -> "f" ^ hex_of_n b
+  | Tree.TStr s -> "s" ^ hex_of_nlist s
+  | Tree.TArr l -> "[" ^ St.concat "," (L.map show_tree l) ^ "]"
+  | Tree.TObj l -> "{" ^ St.concat "," (L.map (fun (k, v) -> hex_of_nlist k ^ ":" ^ show_tree v) l) ^ "}"
+
+let dectree ic =
+  (try while true do
+    let line = St.trim (input_line ic) in
+    if line <> "" then
+      (match Tree.dec_doc (nlist_of_hex line) with
+       | Some t -> print_endline ("TREE " ^ show_tree t)
+       | None -> print_endline "MALFORMED")
+  done with End_of_file -> ())
+
+let c03 ic =
+  let id = ref 0 and w = ref (n_of_int 64) in
+  let ctx = ref Writer.init and sp = ref WSpec.sinit in
+  let trap = false in   (* the harness is a release build without overflow checks *)
+  let big s = n_of_hex (Printf.sprintf "%x" (int_of_string s)) in
+  let wop_of = function
+    | ["BOOL"; v] -> Some (Writer.OBool (big v)) | ["NULL"] -> Some Writer.ONull
+    | ["I32"; z] -> Some (Writer.OI32 (z_of_string z)) | ["F64"; b] -> Some (Writer.OF64 (n_of_hex b))
+    | ["STR"; h] -> Some (Writer.OStr (nlist_of_hex h)) | ["ISTR"; i] -> Some (Writer.OIStr (big i))
+    | ["SOBJ"; n] -> Some (Writer.OStartObj (big n)) | ["FOBJ"] -> Some Writer.OFinObj
+    | ["SARR"; n] -> Some (Writer.OStartArr (big n)) | ["FARR"] -> Some Writer.OFinArr
+    | _ -> None in
+  (try while true do
+    let line = input_line ic in
+    match split line with
+    | ["CASE"; k; ww; _] -> id := int_of_string k; w := n_of_int (int_of_string ww); ctx := Writer.init; sp := WSpec.sinit
+    | ["END"] | [] -> ()
+    | ["FIN"] ->
+        let (st, bytes) = Writer.finalize !ctx in
+        Printf.printf "M %d FIN %d %s\n" !id (int_of_n st) (digest bytes);
+        let (st', bytes') = WSpec.spec_finalize !sp in
+        Printf.printf "S %d FIN %d %s\n" !id (int_of_n st') (digest bytes')
+    | ["INTERN"; h] ->
+        let (c', i) = Writer.intern !ctx (nlist_of_hex h) in
+        ctx := c'; Printf.printf "M %d ID %d\n" !id (int_of_n i); Printf.printf "S %d ID %d\n" !id (int_of_n i)
+    | toks ->
+        (match wop_of toks with
+         | None -> failwith ("c03: bad line " ^ line)
+         | Some op ->
+             let interned = !ctx.Writer.interned in
+             let (c', r) = Writer.step !w trap !ctx op in
+             ctx := c';
+             (match r with
+              | Writer.WOk -> Printf.printf "M %d ST 0 %s\n" !id (digest c'.Writer.out)
+              | Writer.WErr c -> Printf.printf "M %d ST %d %s\n" !id (int_of_n c) (digest c'.Writer.out)
+              | Writer.WPanic _ -> Printf.printf "M %d PANIC\n" !id);
+             let (s', st) = WSpec.spec_step interned !sp op in
+             sp := s';
+             Printf.printf "S %d ST %d %s\n" !id (int_of_n st) (digest (WSpec.flatten s')))
+  done with End_of_file -> ())
+
 let () =
   let comp = Sys.argv.(1) in
   let ic = if Array.length Sys.argv > 2 then open_in Sys.argv.(2) else stdin in
   match comp with
-  | "c01" -> c01 ic
+  | "c01" | "c08" | "c11" -> c01 ic
+  | "c02" | "c03" -> c03 ic
+  | "dectree" -> dectree ic
   | "c05" -> c05 ic
   | "c06" -> c06 ic
   | "c10" -> c10 ic
